@@ -450,6 +450,23 @@ func c11HasNonPrint(s string) bool {
 	return false
 }
 
+// c11NonPrint lists the runes of s that unicode.IsPrint rejects (the model's IsPrint parameter
+// is "not in this list"), "-" for none.
+func c11NonPrint(s string) string {
+	var ps []string
+	seen := map[rune]bool{}
+	for _, r := range s {
+		if !unicode.IsPrint(r) && !seen[r] {
+			seen[r] = true
+			ps = append(ps, fmt.Sprint(int(r)))
+		}
+	}
+	if len(ps) == 0 {
+		return "-"
+	}
+	return strings.Join(ps, ",")
+}
+
 func c11LibNeedQuoted(s string) (q bool) {
 	defer func() {
 		if recover() != nil {
@@ -846,7 +863,7 @@ func c11StyleOps(c *Cfg, goccy bool, s string) {
 			} else if ok && strings.HasPrefix(out, "k:\n") {
 				ans = "weird"
 			}
-			c.Op("O", fmt.Sprintf("style v %s %s %s %s", H(s), c11B(multi), lex, libq), ans)
+			c.Op("O", fmt.Sprintf("style v %s %s %s %s %s", H(s), c11B(multi), lex, libq, c11NonPrint(s)), ans)
 			if multi && ans == "literal" {
 				// tie of the block model (emitBlock/parseBlock) to the library: what the real
 				// decoder reads back from the real literal block
@@ -868,7 +885,7 @@ func c11StyleOps(c *Cfg, goccy bool, s string) {
 		if ok && strings.HasSuffix(out, ": 1\n") {
 			ans = c11VisibleStyle(out)
 		}
-		c.OpTag("O", c11KnownKeyStyle(s), fmt.Sprintf("style k %s 0 %s %s", H(s), lex, libq), ans)
+		c.OpTag("O", c11KnownKeyStyle(s), fmt.Sprintf("style k %s 0 %s %s %s", H(s), lex, libq, c11NonPrint(s)), ans)
 		return
 	}
 	// yaml.v3 based encoder: the in-repo decision is legacyStrings/useQuote → double quotes,
